@@ -24,8 +24,10 @@ static C11: checks::c11::C11 = checks::c11::C11;
 static C12: checks::c12::C12 = checks::c12::C12;
 static C13: checks::c13::C13 = checks::c13::C13;
 
+static C14: checks::c14::C14 = checks::c14::C14;
+
 fn registry() -> Vec<&'static dyn DynCheck> {
-    vec![&C01, &C02, &C03, &C04, &C06, &C11, &C12, &C13]
+    vec![&C01, &C02, &C03, &C04, &C06, &C11, &C12, &C13, &C14]
 }
 
 fn find(id: &str) -> &'static dyn DynCheck {
